@@ -470,6 +470,44 @@ def process_record(rec: dict, policy: str, seed: int, stride: int, out: dict) ->
                                                  message=f"{sig}: uses()/node lists of the source changed after extracting from it"))
 
 
+def history_step(prev: dict, rec: dict, seed: int, out: dict) -> None:
+    """The same source OBJECTS, extracted from, edited, extracted from again: an instance is built as `prev`, some of its
+    cuts are extracted, then its node inputs are rewired in place (Node.replace_input_with) so that it becomes `rec`, and
+    cuts of `rec` are extracted and judged against TLC's expectations for `rec` (nothing remembered from the earlier
+    extractions may show)."""
+    if len(rec["o"]) < 2 or prev["i"] == rec["i"]:
+        return
+    if any(len(a) != len(b) for a, b in zip(prev["i"], rec["i"])):
+        return
+    mode = "graphs" if (seed + len(rec["cuts"])) % 2 else "graph"
+    src = Src(prev, mode)
+    warm = [c for c in prev["cuts"] if not c[2][0]][:3] or prev["cuts"][:1]
+    for ins, outs, _exp in warm:
+        run_cut(src, ins, outs, "graph", "obj")
+    judge_captures(src, prev["caps"], "graph")
+    for n, (a, b) in enumerate(zip(prev["i"], rec["i"]), start=1):
+        for j, (x, y) in enumerate(zip(a, b)):
+            if x != y:
+                src.nodes[n].replace_input_with(j, src.vals[y] if y else None)
+    src.I = rec
+    src.uses0 = src._uses()
+    out["history_steps"] = out.get("history_steps", 0) + 1
+    inst_key = dict(g=rec["g"], o=rec["o"], n=rec["n"], i=rec["i"], l=rec["l"], edited_from=prev["i"])
+    for cls, msg in judge_captures(src, rec["caps"], "graph"):
+        sig = f"C18:implicit-usage:{cls}:after-edit"
+        out["findings"].setdefault(sig, dict(kind="history", instance=inst_key, mode=mode, message=f"{sig} {msg}"))
+    picked = [c for k, c in enumerate(rec["cuts"]) if (k + seed) % max(1, len(rec["cuts"]) // 4) == 0][:6]
+    for ins, outs, exp in picked:
+        res, exc = run_cut(src, ins, outs, "graph", "obj")
+        out["calls"] += 1
+        vio, _div = judge(src, ins, outs, exp, rec["den"], "graph", res, exc)
+        for cls, msg in vio:
+            sig = f"C18:extract:{cls}:after-edit"
+            out["vio_count"][sig] = out["vio_count"].get(sig, 0) + 1
+            out["findings"].setdefault(sig, dict(kind="history", instance=inst_key, mode=mode, ins=ins, outs=outs, expected=exp,
+                                                 message=f"{sig} after rewiring the source in place, extract(ins={ins}, outs={outs}): {msg}"))
+
+
 def _new_out() -> dict:
     return dict(calls=0, cuts=0, skipped=0, instances=0, kinds=set(), findings={}, vio_count={}, div={}, div_sample={},
                 samples=[], sample_feats=set(), unparsed=0)
@@ -478,6 +516,7 @@ def _new_out() -> dict:
 def _work(args):
     path, offsets, policy, seed, stride = args
     out = _new_out()
+    last: dict = {}      # shape of an instance -> the previous record of that shape seen by this worker
     with open(path, "rb") as f:
         for off in offsets:
             f.seek(off)
@@ -489,6 +528,10 @@ def _work(args):
                 continue
             out["instances"] += 1
             process_record(rec, policy, seed, stride, out)
+            shape = json.dumps([rec["g"], rec["o"], rec["n"], rec["l"]])
+            if shape in last:
+                history_step(last[shape], rec, seed, out)
+            last[shape] = rec
     out.pop("sample_feats")
     return out
 
@@ -522,6 +565,7 @@ def replay_file(path: str, *, policy: str, seed: int, stride: int = 1, nproc: in
     for r in results:
         for k in ("calls", "cuts", "skipped", "instances", "unparsed"):
             total[k] += r[k]
+        total["history_steps"] = total.get("history_steps", 0) + r.get("history_steps", 0)
         total["kinds"] |= r["kinds"]
         for sig, d in r["findings"].items():
             total["findings"].setdefault(sig, d)
